@@ -237,6 +237,35 @@ class CallMixin(ExprMixin):
         finally:
             self.st.env = saved
 
+    def assume_lambda_semantics(self, c: V):
+        """A one-parameter lambda handed to a callee as a predicate object c: forall x. holds(c, x) == <its body at x> (when the body is a
+        pure expression of the contract language; otherwise nothing is assumed and the callee sees an uninterpreted predicate)."""
+        holds = self.spec.specfuns.get('holds')
+        node = c.py[1]
+        if holds is None or len(node.args.args) != 1:
+            return
+        x = z3.Const(fresh_name('lx'), Ref)
+        xv = V(ANY, x)
+        n_pc = len(self.st.pc)
+        if getattr(self, 'qbound', None) is None:
+            self.qbound = []
+        if getattr(self, 'qfacts', None) is None:
+            self.qfacts = []
+        self.qbound.append([x])
+        self.qfacts.append([])
+        self.spec_mode += 1
+        try:
+            body = self.truth(self.call_lambda(c.py, [xv]))
+        except Unsupported:
+            del self.st.pc[n_pc:]
+            return
+        finally:
+            self.spec_mode -= 1
+            self.qbound.pop()
+            self.qfacts.pop()
+        del self.st.pc[n_pc:]          # side facts of the evaluation mention the bound variable: dropped
+        self.assume(z3.ForAll([x], self.truth(holds(self, V(ANY, c.term), xv)) == body))
+
     def construct(self, cls: str, n: ast.Call) -> V:
         if cls in smt.CLASSES and 'BaseException' in smt.ancestors(cls):
             # exception constructor: message arguments are not evaluated (X2)
@@ -316,6 +345,10 @@ class CallMixin(ExprMixin):
             return mk_none()
         if meth == 'extend':
             other = self.refresh(self.eval(n.args[0]))
+            if other.ty.kind == 'obj' and 'list_items' in self.spec.fields:
+                # a value of type Any that is a Python list: its elements are the heap field list_items of that object
+                self.safety('TypeError', smt.issub(smt.tag(other.term), smt.CLASSES['list']), 'extend_with_non_list')
+                other = self.read_field(other.term, 'list_items')
             if other.ty.kind != 'list':
                 raise Unsupported('extend with %r' % (other.ty,))
             if recv.ty.args[0] != other.ty.args[0]:
@@ -513,6 +546,7 @@ class CallMixin(ExprMixin):
     def call_contract(self, C: FnContract, n: ast.Call, recv: V | None, awaited: bool) -> V:
         vals = self.bind_args(C, n, recv)
         dflts = None
+        lams = []
         for p, ty in C.params.items():
             if p not in vals:
                 if dflts is None:
@@ -524,10 +558,18 @@ class CallMixin(ExprMixin):
                     vals[p] = self.eval(dflts[p])
                 finally:
                     self.st.env = saved
+            was_lambda = vals[p].ty.kind == 'py' and isinstance(vals[p].py, tuple) and vals[p].py[0] == 'lambda'
             vals[p] = coerce(vals[p], ty)
+            if was_lambda and vals[p].ty.kind == 'obj' and not self.spec_mode:
+                lams.append(vals[p])
         if C.is_async and not awaited:
             return V(PY, py=('coro', C.key, vals))
-        return self.apply_contract(C, vals)
+        r = self.apply_contract(C, vals)
+        for lam in lams:
+            # the callee's clauses speak about holds(c, x) in its exit state (it evaluates the predicate after its last suspension
+            # point): the lambda's meaning is stated on the heap as it is when the call returns
+            self.assume_lambda_semantics(lam)
+        return r
 
     def spec_eval(self, expr: str, env: dict[str, V], entry=None) -> V:
         """Evaluate a contract clause: pure, total, over `env`; old(e) refers to `entry`."""
